@@ -22,16 +22,17 @@ CHECKS = {
             "Proved for all valid DFA pairs over a common alphabet (unbounded sizes): ==, !=, <=, <, >=, >, issubset, issuperset, isdisjoint "
             "return a boolean (never an error) that is exactly the corresponding statement about the two languages; isempty likewise; "
             "different alphabets are refused. The relevance-flag skipping of the lazy product is justified inside the proof. "
-            "== is a specification model (Hopcroft-Karp bookkeeping not modelled; its boolean is compared). isfinite: executable "
-            "model (acyclicity of the useful subgraph) validated by correspondence only - no theorem yet.",
+            "isfinite is true exactly when the accepted word lengths are bounded (with constructive corollaries: true => every accepted word "
+            "shorter than |Q|; false => accepted words of unbounded length). == is a specification model (Hopcroft-Karp bookkeeping not "
+            "modelled; its boolean is compared).",
             "", "7/C06"),
     "C04": ("Coq theorems about the lazy product + generic graph-to-DFA builder + differential correspondence via proved comparator",
             "Proved for all valid DFA pairs over a common alphabet and all words (unbounded): union, intersection, difference and symmetric "
             "difference return a valid DFA whose verdict on every word is the Boolean operation of the operands' verdicts (every "
             "complete/partial mix; relevance-flag skipping justified in the proof); different alphabets are refused; every finite expression "
-            "tree of the four binary operations evaluates to a valid DFA with the tree's semantics. complement / to_complete / to_partial: "
-            "executable models validated by correspondence (language equality with the source decided by the proved comparator, totality); "
-            "their language theorems are not proved yet (partial). minify=True results are judged by language here and by size in C05.",
+            "tree of the four binary operations and complement evaluates to a valid DFA with the tree's semantics; complement is exactly the "
+            "complement within the alphabet; to_complete keeps the language and defines every transition; to_partial(minify=False) keeps "
+            "the language (never Err Fuel). minify=True results are judged by language here (proved comparator) and by size in C05.",
             "", "7/C04"),
     "C07": ("Coq theorems about the subset construction (generic builder) and NFA.from_dfa + correspondence via proved comparators",
             "Proved for all valid NFAs/DFAs (unbounded): whenever the subset construction returns (always up to 14 NFA states; fixed large "
